@@ -4,6 +4,7 @@ import PqModel.PoolProto
 import PqModel.Registry
 import PqModel.CasPublish
 import PqModel.Commit
+import PqModel.RowGroupProto
 
 /-! # C15 — Documented concurrent use behaves like some serial execution (PARTIAL)
 
@@ -306,6 +307,49 @@ example : disc encodeSlip = false ∧ ∀ n, disc (reconstructSlip n) = false :=
   refine ⟨by decide, fun n => ?_⟩
   simp [reconstructSlip, disc, disc_replicate_append]
 
+/-- Row readers: for any number of goroutines reading pages — of byte-array columns (values point
+    into the pooled buffer, `detach`) or of other columns — with every release path (end of page,
+    SeekToRow, Reset, Close) going through `clear()`, whatever number of rows each caller keeps after
+    its reader let go of the page: a pooled values buffer that a caller's rows still point into is
+    touched by that goroutine only and is never inside the pool (so no other goroutine's page decode
+    can obtain and overwrite it). -/
+theorem rowreader_pool_exclusive (cfg : List (Bool × Nat × Nat)) {s : St}
+    (hr : Reach (cfg.map fun c => rowReaderProg c.1 true c.2.1 c.2.2) s) :
+    Exclusive s ∧ PoolQuiet s ∧ PutLast s :=
+  pool_exclusive _ (by
+    intro p hp
+    obtain ⟨c, _, rfl⟩ := List.mem_map.mp hp
+    exact rowReaderProg_disc _ _ _) hr
+
+example (s : St) (hr : Reach [rowReaderProg true true 3 5, rowReaderProg false true 2 0, rowReaderProg true true 0 1] s) :
+    Exclusive s ∧ PoolQuiet s ∧ PutLast s :=
+  rowreader_pool_exclusive [(true, 3, 5), (false, 2, 0), (true, 0, 1)] hr
+
+/-- NEGATION for a release path that ignores `detach` (e.g. `Close` calling `Release` on the page it
+    still holds): reader 0 decodes a page into buffer 0, hands out a row, closes — buffer 0 is in
+    the pool while the caller's row still points into it (`¬ PoolQuiet`, `¬ PutLast`); reader 1 of
+    another goroutine then obtains buffer 0 for its own page: both touch it (`¬ Exclusive`). -/
+theorem rowreader_close_slip_not_exclusive :
+    let slip := rowReaderProg true false 0 1
+    (∃ s, Reach [slip, slip] s ∧ ¬ PoolQuiet s ∧ ¬ PutLast s) ∧
+    (∃ s, Reach [slip, slip] s ∧ ¬ Exclusive s) := by
+  intro slip
+  have s0 : Reach [slip, slip] (PoolProto.init [slip, slip]) := .init
+  have s1 := s0.step (.getNew (i := 0) rfl)
+  have s2 := s1.step (.use (i := 0) rfl)
+  have s3 : Reach [slip, slip] { pool := [0], fresh := 1, gs := [.released 0 [.use], .start slip] } :=
+    s2.step (.put (i := 0) rfl)
+  have s4 : Reach [slip, slip] { pool := [], fresh := 1, gs := [.released 0 [.use], .holding 0 slip] } :=
+    s3.step (.getPooled (i := 1) (o := 0) rfl (by decide))
+  refine ⟨⟨_, s3, ?_, ?_⟩, ⟨_, s4, ?_⟩⟩
+  · intro h; exact h 0 (.released 0 [.use]) 0 rfl (by decide) (by decide)
+  · intro h; exact absurd (h 0 0 [.use] rfl) (by decide)
+  · intro h
+    exact h 0 1 (.released 0 [.use]) (.holding 0 slip) 0 (by decide) rfl rfl (by decide) (by decide)
+
+/-- the slip is exactly what `disc` rejects, for every page length and every number of kept rows -/
+example : ∀ nRead nKept, disc (rowReaderProg true false nRead (nKept + 1)) = false := rowReaderSlip_disc
+
 end pool
 
 /-! ## process-wide registries -/
@@ -423,5 +467,73 @@ example : serialSched sched 0 2 =
   decide
 
 end commit
+
+/-! ## row group writers: BeginRowGroup / fill / Flush / Commit / reuse, with AAD ordinals -/
+section rowgroups
+open PqModel.RowGroupProto
+
+/-- For EVERY history of calls on an encrypting writer — any number of row group writers created at
+    any time, rows written to them and page boundaries (`rg.Flush`, full page buffers) in any
+    interleaving, Commits in any order and any number of times per row group writer (reuse after
+    Commit), rows written through the parent writer, parent page boundaries and parent flushes in
+    between — the file produced by the MIRROR of writer.go
+    (a) holds, row group by row group, exactly the rows that the SPEC machine puts there: the rows
+        written to a row group writer since its previous Commit form one row group at its Commit,
+        preceded by the parent's pending rows, in commit order — the result of the serial execution
+        in which every row group is filled in one piece right before its Commit; and
+    (b) is readable: every page of the j-th row group was sealed with row-group ordinal j, the
+        ordinal the reader puts into the AAD. -/
+theorem rowgroups_serial_readable {X : Type} (es : List (Ev X)) :
+    (run true es).groups.map content = (srun es).out ∧ readable (run true es).groups = true :=
+  ⟨(sim_run es).groups_out, (sim_run es).groups_ok⟩
+
+/-- "Concurrent result = some serial order", at the level of schedules: the file written by ANY
+    history equals (row group by row group) the file written by its serial schedule `serialize`, in
+    which one goroutine writes the rows of each row group in one block immediately before that row
+    group's Commit (calls of the coordinating goroutine in their original order). -/
+theorem rowgroups_equal_serial_schedule {X : Type} (es : List (Ev X)) :
+    (run true es).groups.map content = (run true (serialize [] es)).groups.map content := by
+  rw [(rowgroups_serial_readable es).1, (rowgroups_serial_readable (serialize [] es)).1, srun_serialize]
+
+example : serialize [] ([.begin, .begin, .fill 1 7, .fill 0 1, .flush 1, .fill 1 8, .commit 0, .fill 0 2,
+      .commit 1, .fill 1 9, .commit 0] : List (Ev Nat)) =
+    [.begin, .begin, .fill 0 1, .commit 0, .fill 1 7, .fill 1 8, .commit 1, .fill 0 2, .commit 0] := by decide
+
+/-- between Commits a row group writer of an encrypting writer never seals a page (its values wait
+    for the ordinal), and the parent's own row group always carries the next ordinal -/
+theorem rowgroups_wait_for_ordinal {X : Type} (es : List (Ev X)) :
+    (∀ r ∈ (run true es).rgs, r.await = true ∧ r.pages = []) ∧
+    (run true es).own.ord = (run true es).groups.length :=
+  ⟨(sim_run es).rgs_wait, (sim_run es).own_ord⟩
+
+/-- A `WriteRows` on one row group writer commutes with every call on another row group writer
+    (WriteRows, page boundary, Commit) and with every call on the parent writer: the state reached
+    does not depend on how the goroutines filling different row groups interleave. Holds for the
+    mirror and for the slip. -/
+theorem rowgroups_fill_commutes {X : Type} (restore : Bool) (w : W X) (i : Nat) (x : X) (e : Ev X)
+    (he : touches i e = false) :
+    step restore (step restore w (.fill i x)) e = step restore (step restore w e) (.fill i x) :=
+  step_fill_comm restore w i x e he
+
+/-- non-vacuity: two row group writers, reused for a second round with a page boundary inside the
+    fill, and rows through the parent in between -/
+example : (run true ([.begin, .begin, .fill 0 10, .fill 1 20, .write 5, .commit 0, .commit 1,
+      .fill 0 11, .flush 0, .fill 0 12, .fill 1 21, .flush 1, .commit 1, .commit 0] : List (Ev Nat))).groups =
+    [[(0, [5])], [(1, [10])], [(2, [20])], [(3, [21])], [(4, [11, 12])]] := by decide
+
+example : touches 0 (.commit 1 : Ev Nat) = false ∧ touches 0 (.wflush : Ev Nat) = false := by decide
+
+/-- NEGATION for the slip (writer.go:1543 not restoring `awaitOrdinal` after Commit): two row group
+    writers, committed once and filled again with a page boundary inside the fill — the pages of the
+    second round are sealed with the ordinals guessed at the previous Commit (1 and 2) but end up in
+    row groups 2 and 3: the file holds the right rows and does not decrypt. One row group writer
+    reused alone is not affected (its guess is right). -/
+theorem rowgroups_slip_unreadable :
+    readable (run false slipSchedule).groups = false ∧
+    (run false slipSchedule).groups.map content = (srun slipSchedule).out ∧
+    readable (run false ([.begin, .fill 0 1, .commit 0, .fill 0 2, .flush 0, .fill 0 3, .commit 0] : List (Ev Nat))).groups = true := by
+  decide
+
+end rowgroups
 
 end PqModel.Props.C15
